@@ -67,3 +67,33 @@ pub struct UnmanagedSnapshot {
     /// Whether the pool has been closed.
     pub closed: bool,
 }
+
+/// A mutex whose `lock()` is a schedule point (taken *before* the lock is
+/// acquired, so a parked thread never holds it). With it every lock
+/// acquisition of a pool is a place where a test harness can interleave
+/// another operation, wherever the surrounding code is moved to.
+#[derive(Debug, Default)]
+pub struct Mutex<T>(std::sync::Mutex<T>);
+
+impl<T> Mutex<T> {
+    /// See [`std::sync::Mutex::new`].
+    pub fn new(t: T) -> Self {
+        Self(std::sync::Mutex::new(t))
+    }
+
+    /// See [`std::sync::Mutex::lock`].
+    pub fn lock(&self) -> std::sync::LockResult<std::sync::MutexGuard<'_, T>> {
+        point("lock");
+        self.0.lock()
+    }
+
+    /// See [`std::sync::Mutex::try_lock`].
+    pub fn try_lock(&self) -> std::sync::TryLockResult<std::sync::MutexGuard<'_, T>> {
+        self.0.try_lock()
+    }
+
+    /// Acquires the lock without passing a schedule point (harness accessors).
+    pub fn lock_quietly(&self) -> std::sync::LockResult<std::sync::MutexGuard<'_, T>> {
+        self.0.lock()
+    }
+}
